@@ -14,6 +14,7 @@ from .registry import GROUPS, PROPS
 
 TIER_TIMEOUT = {"quick": 900, "thorough": 7200}
 NATIVE_LOCK = threading.Lock()
+PLAYBACK_LOCK = threading.Lock()
 
 
 def log(msg):
@@ -224,6 +225,12 @@ def handle_failure(ctx, group, gcfg, hdir, target, logdir, r, known, kargs, cbmc
     tests = kanirun.concrete_playback(hdir, target, r.harness, os.path.join(logdir, hs + ".playback.log"),
                                       harness_timeout(PROPS[ctx.prop], r.harness, ctx.tier) * 2, ctx.mem_gb,
                                       kargs, cbmc_args)
+    if not tests:
+        # the trace-producing run is heavier than the plain run: retry once, alone (serialised), with a longer budget
+        with PLAYBACK_LOCK:
+            tests = kanirun.concrete_playback(hdir, target, r.harness, os.path.join(logdir, hs + ".playback2.log"),
+                                              harness_timeout(PROPS[ctx.prop], r.harness, ctx.tier) * 4, ctx.mem_gb,
+                                              kargs, cbmc_args)
     rep = {"generated_tests": len(tests), "dev": None, "release": None, "message": ""}
     r.replay = rep
     if not tests:
